@@ -316,6 +316,10 @@ def run(ctx):
     try:
         shutil.rmtree(tree.root)
         shutil.copytree(os.path.join(pyg.REPO, "testdata"), tree.root, symlinks=True, ignore=shutil.ignore_patterns(".cache*"))
+        # a directory no burst touches: its listing through one protocol before and after it has been listed through another
+        tree.write("c14only/sub/x.txt", b"x\n")
+        tree.write("c14only/doc.txt", b"d\n")
+        tree.mkdir("c14only/sub2")
         from pygopherd import initialization, logger
         cctx = ssl.create_default_context()
         cctx.check_hostname = False
@@ -394,6 +398,18 @@ def run(ctx):
                             res.violation("C14:response-differs:" + stype, "a concurrent response differs from the response the client would get alone", inp,
                                           observed=results[i][:200], required=seq[picks[i]][:200], replay=rp)
                         res.count(f"{stype}:{'same' if results[i] == seq[picks[i]] else 'DIFF'}")
+                # ---- one directory, one cache entry, several protocols one after the other: what a protocol does to the entries it
+                # renders stays with that request (the later ones are served from the cache file the first one wrote)
+                seq_ = [b"GET /c14only HTTP/1.0\r\n\r\n", b"/c14only\t$\r\n", b"GET /c14only HTTP/1.0\r\n\r\n", b"/c14only\t+\r\n", b"/c14only\r\n",
+                        b"GET /c14only HTTP/1.0\r\n\r\n", b"/c14only\t$\r\n"]
+                outs_ = [mask(ask(port, rq_, 0, cctx)) for rq_ in seq_]
+                for a_, b_ in ((0, 2), (0, 5), (1, 6)):
+                    res.evaluations += 1
+                    res.nontrivial.add((stype, "one-cache-entry", a_, b_))
+                    if outs_[a_] != outs_[b_]:
+                        res.violation("C14:response-differs:" + stype, "a listing differs after the same directory was listed through another protocol",
+                                      {"server": stype, "scenario": "one directory through several protocols", "request": seq_[b_], "after": [x.decode("latin-1") for x in seq_[:b_]]},
+                                      observed=outs_[b_][:300], required=outs_[a_][:300], replay={"server": stype, "burst": 0})
                 # ---- a handset's header block is its own: browsers served after it (no Accept line of their own) get HTML ------
                 ask(port, forms[-3][0], 0, cctx)
                 for rq_ in (forms[-2][0], b"GET / HTTP/1.0\r\n\r\n", forms[-1][0]):
